@@ -330,9 +330,9 @@ fn run_history(h: &Hist, hi: usize, ctx: &mut Ctx) -> Result<Final, Violation> {
                 let lists_nonempty = model.values().all(|v| !matches!(v, Val::A(a) if a.is_empty()));
                 if is_complete(&model) && lists_nonempty {
                     ctx.probe("reparse-of-complete-entry");
-                    let text = sum.to_string();
+                    let text = metered!(ctx, 4096, sum.to_string());
                     set_hash_seed(*seed);
-                    match Summary::from_str(&text) {
+                    match metered!(ctx, text.len(), Summary::from_str(&text)) {
                         Ok(parsed) => {
                             if let Err(e) = compare(&parsed, &model) {
                                 fail!(
@@ -547,6 +547,9 @@ impl Property for C07 {
         String::new()
     }
 
+    fn work_factor(&self) -> Option<u64> {
+        Some(128)
+    }
     fn rule(&self) -> String {
         "One third of the runs execute a free-form history of 1..60 set/push/clone/print/reparse calls over all 23 \
          variables; two thirds draw a target assignment and derive 2..4 different histories that reach it (canonical \
